@@ -12,6 +12,8 @@
 (*                        to u16 before the range test (upper bound lost)  *)
 (*   "u32_any_tag"        the 32-bit decoder accepts every 0b11 prefix     *)
 (*   "u8_ge"              `>` replaced by `>=` in the 8-bit two-byte mode  *)
+(*   "u128_any_width"     announced widths above 16 read as 16             *)
+(*   "u64_guard_16"       the 64-bit width guard uses the 128-bit constant *)
 (***************************************************************************)
 EXTENDS Compact
 
@@ -52,8 +54,13 @@ ImplDec(W, s, p) ==
                    ELSE LET x == SubSeq(s, p + 2, p + 5) IN
                         IF ~Below(x, 4) THEN IOk(x, W, p + 5) ELSE IErr                      \* x > u32::MAX >> 2
               ELSE IErr
-         ELSE LET need == (prefix \div 4) + 4 IN
-              IF need > W THEN IErr                                                          \* "unexpected prefix"
+         ELSE LET need0 == (prefix \div 4) + 4
+                  \* "u128_any_width": the 128-bit decoder's catch-all arm reads 16 bytes for every larger announced width
+                  need == IF DVariant = "u128_any_width" /\ W = 16 /\ need0 > 16 THEN 16 ELSE need0
+                  \* "u64_guard_16": the 64-bit decoder tests the announced width against 16 (copied from the 128-bit one)
+                  limit == IF DVariant = "u64_guard_16" /\ W = 8 THEN 16 ELSE W
+              IN
+              IF need > limit THEN IErr                                                      \* "unexpected prefix"
               ELSE IF ~Have(s, p + 1, need) THEN IErr
               ELSE LET x == SubSeq(s, p + 2, p + 1 + need) IN
                    IF need = 4 THEN (IF ~Below(x, 4) THEN IOk(x, W, p + 5) ELSE IErr)
